@@ -58,9 +58,9 @@ type RoundTrip struct {
 	Target *Env // a second, independently initialised application instance that receives the import
 }
 
-func (r *RoundTrip) ID() string                    { return r.Spec.Property + "/" + r.Inner.ID() }
-func (r *RoundTrip) Stores() []string              { return r.Inner.Stores() }
-func (r *RoundTrip) Init(e *Env) *State            { return r.Inner.Init(e) }
+func (r *RoundTrip) ID() string         { return r.Spec.Property + "/" + r.Inner.ID() }
+func (r *RoundTrip) Stores() []string   { return r.Inner.Stores() }
+func (r *RoundTrip) Init(e *Env) *State { return r.Inner.Init(e) }
 func (r *RoundTrip) Enabled(e *Env, s *State) []Op {
 	ops := r.Inner.Enabled(e, s)
 	for i, g := range r.Spec.Gov {
